@@ -105,4 +105,4 @@ def nontrivial(case, result):
 def prebuild(root):
     """translators: coq/Generated/Glue.v (one-line projection functions; Proofs/GlueTie.v) and coq/Generated/Loops.v (loop
     functions of /repo/src/buint; Proofs/LoopsTieC05.v), each proved equal to the hand-written model"""
-    return run_translator(root, "rs2v_glue.py") or run_translator(root, "rs2v_loops.py")
+    return run_translator(root, "rs2v_glue.py", "C05") or run_translator(root, "rs2v_loops.py", "C05")
